@@ -151,7 +151,7 @@ def jobs(tier):
     missing = [v for v in NAMES.values() if v + '(' not in hdr]
     if missing:
         raise cxx2c.Unsupported('opaque collaborator(s) no longer called by JettisonOutgoingResults (contract has no subject): %s' % missing)
-    har = '\nvoid h_main(void) { unsigned int a_, b_, c_; int l_; mv_cnt_str = a_; mv_cnt_msg = b_; mv_iter_left = c_; mv_last = l_; mv_fname = &mv_fname_obj;   /* the iterator's current name is an object of its own, not one of the handler's temporaries */\n  struct StorageReflectSession *s; struct StorageReflectSession_NodePathMatcher *m; %s(s, m); %s }\n' % (FN, END)
+    har = '\nvoid h_main(void) { unsigned int a_, b_, c_; int l_; mv_cnt_str = a_; mv_cnt_msg = b_; mv_iter_left = c_; mv_last = l_; mv_fname = &mv_fname_obj;   /* the current field name is an object of its own, not one of the temporaries of the handler */\n  struct StorageReflectSession *s; struct StorageReflectSession_NodePathMatcher *m; %s(s, m); %s }\n' % (FN, END)
     tu = hdr + PRE % NAMES + '\n' + body + har
     repl = [v for k, v in NAMES.items() if k != 'FN']
     return [Job('srs_JettisonOutgoingResults', tu, 'h_main', enforce=[FN], replace=repl, loops=True, klass='proved', expect_loop_contracts=8,
